@@ -1189,6 +1189,141 @@ def add_prefix_readers(pack):
     c.replay_without_model = True
 
 
+    # ---- #:ns{...}: the map must follow; anything else is a syntax error (the incomplete kind at the end of the text)
+    def nsmap_setup(eng, st):
+        psetup(eng, st)
+
+        def namespaced(e, s, a, k):
+            # _read_namespaced (C03 pack): reads the token, at least... possibly nothing; keeps the reader well-formed
+            ctx_ = e.lift(a[0], s)
+            r = fld(s, ctx_, "_reader")
+            p = pos(s, r)
+            s.ghost["n_read"] = z3.Int(V.fresh_name("n_read"))
+            e.havoc_heap(s, ["_idx"])
+            for nm in ("dqv", "dqn"):
+                if nm in s.aux:
+                    s.aux[nm] = z3.Const(V.fresh_name(nm), s.aux[nm].sort())
+            s.assume(WF(e, s, r), pos(s, r) >= p)
+            s2 = s.copy()
+            ns_t, name_t = V.fresh_val("tok_ns"), V.fresh_val("tok_name")
+            s.assume(z3.Or(V.is_none(ns_t), V.is_str(ns_t)), V.is_str(name_t))
+            yield s, (SV(ns_t), SV(name_t))
+            s2.ghost["inner_exc"] = "syntax"
+            yield s2, Raise(Exc(rd.SyntaxError, ("Invalid symbol or keyword",), note="raised by the tokenizer"))
+
+        eng.models[id(rd._read_namespaced)] = Model("_read_namespaced (by contract)", namespaced)
+
+        def read_map(e, s, a, k):
+            ctx_ = e.lift(a[0], s)
+            r = fld(s, ctx_, "_reader")
+            e.oblige(s, "_read_map is entered with the cursor on its own opening character '{'", CH(pos(s, r)) == V.mk_str("{"), "pre", 0)
+            s2, s3 = s.copy(), s.copy()
+            res = V.fresh_val("map")
+            s.assume(e.external_ref_fact(s, res))
+            yield s, SV(res)
+            s2.ghost["inner_exc"] = "eof"
+            yield s2, Raise(Exc(rd.UnexpectedEOFError, ("Unexpected EOF in map",), note="the text ended inside the map"))
+            s3.ghost["inner_exc"] = "syntax"
+            yield s3, Raise(Exc(rd.SyntaxError, ("malformed map",), note="malformed map"))
+
+        eng.models[id(rd._read_map)] = Model("_read_map (by contract)", read_map)
+        eng.class_id(NsStandin)
+        eng.field_types[("NsStandin", "name")] = lambda v: V.is_str(v)
+        eng.models[id(rt_.get_current_ns)] = Model("get_current_ns (some namespace with a name)", lambda e, s, a, k: iter([(s, e.alloc(s, NsStandin))]))
+
+    from basilisp.lang import runtime as rt_
+
+    class NsStandin:
+        """stand-in for the current namespace: only its name is read"""
+
+        __slots__ = ("name",)
+
+    c = pack.contract("basilisp.lang.reader:_read_namespaced_map")
+    c.param("ctx", OBJ(RC))
+    c.setup(nsmap_setup)
+    c.requires("the stream reader is well-formed and stands on the colon of #:", lambda a: z3.And(WF(a.eng, a.pre.st, reader_of(a)), CH(pos(a.pre.st, reader_of(a))) == V.mk_str(":")))
+    c.raises(rd.SyntaxError)
+
+    def nsmap_raise(a):
+        post = a.post.st
+        is_eof = a.exc.pycls is not None and issubclass(a.exc.pycls, rd.UnexpectedEOFError)
+        if post.ghost.get("inner_exc") == "eof":
+            return z3.BoolVal(is_eof)
+        if post.ghost.get("inner_exc") == "syntax":
+            return z3.BoolVal(True)
+        msg = a.exc.args[0] if getattr(a.exc, "args", None) else None
+        if msg is not None and "Invalid map namespace" in str(msg):
+            return z3.BoolVal(True)  # a qualified namespace is malformed whatever follows
+        return z3.Implies(CH(pos(post, reader_of(a))) == V.mk_str(""), z3.BoolVal(is_eof))
+
+    c.ensures_on_raise("when the text ends before the map of #:ns{...} the error is UnexpectedEOFError; errors of the map itself keep their kind", nsmap_raise)
+    c.replay(lambda m, ctx, ob: STRLIT_REPLAY)
+    c.replay_without_model = True
+
+    # ---- \<nothing>: a character literal cut short by the end of the text
+    def char_setup(eng, st):
+        psetup(eng, st)
+        str_models(eng)
+
+        def join_exact(e, s, a, k):
+            lst_ = a[1]
+            content = z3.simplify(z3.Select(s.lists, V.Val.a(lst_.t)))
+            s_empty = s.copy()
+            s_empty.assume(z3.Length(content) == 0)
+            if e.feasible(s_empty):
+                yield s_empty, ""
+            s.assume(z3.Length(content) > 0)
+            if e.feasible(s):
+                yield s, SV(V.mk_str(JOINED(content)))
+
+        eng.method_models[(str, "join")] = Model("''.join(list) ('' for the empty list)", join_exact)
+        ISALNUM = z3.Function("str_isalnum", V.Val, z3.BoolSort())
+        eng.method_models[(str, "isalnum")] = Model("str.isalnum (opaque)", lambda e, s, a, k: iter([(s, SV(V.mk_bool(ISALNUM(a[0].t))))]))
+
+    c = pack.contract("basilisp.lang.reader:_read_character")
+    c.label = "nothing after the backslash"
+    c.param("ctx", OBJ(RC))
+    c.setup(char_setup)
+    c.requires("the stream reader is well-formed, stands on a backslash, and the text ends right after it",
+               lambda a: z3.And(WF(a.eng, a.pre.st, reader_of(a)), CH(pos(a.pre.st, reader_of(a))) == V.mk_str("\\"), CH(pos(a.pre.st, reader_of(a)) + 1) == V.mk_str("")))
+    c.raises(rd.UnexpectedEOFError)
+    c.allow_no_return = True
+
+    def char_inv(ctx):
+        st, pre = ctx.st, ctx.entry.st
+        r = fld(pre, ctx["ctx"], "_reader")
+        return [("the stream reader stays well-formed and is still the context's reader", z3.And(WF(ctx.eng, st, r), fld(st, ctx["ctx"], "_reader") == r, ctx["reader"] == r)),
+                ("the cursor has not moved back, and char is the character under it", z3.And(pos(st, r) >= pos(pre, r), ctx["char"] == CH(pos(st, r)), V.is_str(ctx["char"]), ONECHAR(ctx["char"]))),
+                ("the loop is left in its first round (the character under the cursor is the end of the text): nothing was collected",
+                 z3.And(ctx["is_first_char"] == V.mk_bool(True), pos(st, r) == pos(pre, r), z3.Length(z3.Select(st.lists, V.Val.a(ctx["s"]))) == 0, V.is_ref(ctx["s"]), V.Val.a(ctx["s"]) > 0))]
+
+    c.loop(0, invariant=char_inv, frame=["_idx"], lists=True, ghost=("n_read",), aux=("dqv", "dqn"))
+    c.ensures("a backslash at the very end of the text is an incomplete character literal: nothing is returned", lambda a: z3.BoolVal(False))
+    c.replay(lambda m, ctx, ob: STRLIT_REPLAY)
+    c.replay_without_model = True
+
+    # ---- #inst: whatever follows the tag, only a syntax error
+    from basilisp.lang import util as langutil_
+
+    def inst_setup(eng, st):
+        def parse(e, s, a, k):
+            # trusted: the date parser returns a datetime or raises ValueError / OverflowError (bad text) or TypeError (not a string)
+            r = V.fresh_val("instant")
+            s.assume(e.external_ref_fact(s, r))
+            yield s, SV(r)
+            for exc in (ValueError, OverflowError, TypeError):
+                yield s.copy(), Raise(Exc(exc, ("bad instant",), note="raised by the date parser"))
+
+        eng.models[id(langutil_.inst_from_str)] = Model("langutil.inst_from_str (trusted: datetime or ValueError/OverflowError/TypeError)", parse)
+
+    c = pack.contract("basilisp.lang.reader:_inst_from_str")
+    c.setup(inst_setup)
+    c.raises(rd.SyntaxError)
+    c.ensures("", lambda a: z3.BoolVal(True))
+    c.replay(lambda m, ctx, ob: STRLIT_REPLAY)
+    c.replay_without_model = True
+
+
 STRLIT_REPLAY = r'''
 from basilisp.lang import reader
 bad = []
@@ -1203,7 +1338,9 @@ def kind(text):
     except BaseException as e:
         return type(e).__name__
 for text, want in (('"abc', "incomplete"), ('"ab\\', "incomplete"), ('"ab\\u12', "incomplete"), ('"ab\\u', "incomplete"), ('"ab\\q"', "malformed"), ('"\\u12 "', "malformed"),
-                   ('"\\uFFFFFFFF"', "malformed"), ('"\\u00110000"', "malformed"), ('"\\u0041"', "ok"), ('"a\\nb"', "ok")):
+                   ('"\\uFFFFFFFF"', "malformed"), ('"\\u00110000"', "malformed"), ('"\\u0041"', "ok"), ('"a\\nb"', "ok"),
+                   ("#:a", "incomplete"), ("#:a ", "incomplete"), ("#:a 1", "malformed"), ("#:a{:b 1}", "ok"), ("#:a {:b 1}", "ok"), ("#:a{:b", "incomplete"),
+                   ("\\", "incomplete"), ("\\a", "ok"), ("\\newline", "ok"), ("#inst 5", "malformed"), ("#inst \"x\"", "malformed"), ("#inst \"2020-01-01T00:00:00Z\"", "ok")):
     got = kind(text)
     if got != want:
         bad.append("%r is %s, expected %s" % (text, got, want))
